@@ -836,3 +836,40 @@ def switch_table(fn, max_paths=256):
             for _lab, s in b.succs:
                 stack.append((s, labels, env, seen))
     return out
+
+
+# ------------------------------------------------------------------------------------------------
+# MustCall closure: a call to a helper all of whose success paths perform X counts as X
+
+def must_calls(prog, g, pat, arg_pred, depth, memo):
+    key = (g.key, pat if isinstance(pat, str) else pat.pattern, id(arg_pred), depth)
+    if key in memo:
+        return memo[key]
+    memo[key] = False   # cycles: assume not
+    pts = call_points_closed(prog, g, pat, arg_pred, depth - 1, memo)
+    ok = bool(pts) and must_pass(g, pts) is None
+    memo[key] = ok
+    return ok
+
+
+def call_points_closed(prog, f, pat, arg_pred=None, depth=3, memo=None):
+    """call_points plus calls to workspace helpers that perform a matching call on every success path
+    (inlining bound = depth).  The argument predicate is evaluated at the innermost (direct) site."""
+    memo = {} if memo is None else memo
+    direct = call_points(f, pat, arg_pred)
+    if depth <= 0:
+        return direct
+    out = list(direct)
+    for b, t in f.calls():
+        pt = term_pt(f, b.idx)
+        if pt in direct:
+            continue
+        ks = prog.targets(t)
+        if len(ks) != 1:
+            continue
+        g = prog.fns.get(ks[0])
+        if g is None or g is f:
+            continue
+        if must_calls(prog, g, pat, arg_pred, depth, memo):
+            out.append(pt)
+    return out
